@@ -19,7 +19,7 @@ from __future__ import annotations
 
 import ast
 
-from ..astutil import U, view, stmt_index, compare_parts
+from ..astutil import U, view, stmt_index, compare_parts, kwarg
 from ..core import Ctx
 from ..rules import refine, nonetest
 
@@ -43,13 +43,28 @@ def check_levels(ctx: Ctx):
                 ok = U(s.value) in (w, w.replace("np.", "").replace("(data_mask)", "") and f"data_mask.{w[3:6]}()") and okg
         ctx.decide(ok, "LEVELS", f"{site}:{nm}", (fi, where), f"automatic {nm} = {w} (over the fitted region), only when `{nm} is None`",
                    f"automatic level `{nm}` is not {w} guarded by `{nm} is None`")
-    # fitted region: dilated boolean image of the candidate; data_mask = phase_field.data[mask]
-    okm = any(isinstance(s, ast.Assign) and U(s.targets[0]) == "data_mask" and U(s.value) == "phase_field.data[mask]" for s in fv.statements())
-    okd = any(isinstance(s, ast.Assign) and U(s.targets[0]) == "mask" and "droplet._get_phase_field(phase_field.grid, dtype=bool)" in U(fv.expand(s.value, s, stop=("droplet", "mask")))
-              for s in fv.statements())
-    okdil = any(isinstance(s, ast.Assign) and U(s.targets[0]) == "mask" and "binary_dilation(mask" in U(s.value) for s in fv.statements())
-    ctx.decide(okm and okd and okdil, "LEVELS", site + ":region", fi, "fit region = dilated boolean image of the candidate; image values taken there",
-               "the fit region is not the dilated boolean image of the candidate applied to phase_field.data")
+    # fitted region: the image values are taken where the dilated boolean image of the candidate is set
+    # (resolved through temporaries: whatever the intermediate masks are called)
+    okreg, where = False, fi
+    for nm in ("vmin", "vmax"):
+        pass
+    dm = None
+    for s in fv.statements():
+        if isinstance(s, ast.Assign) and isinstance(s.targets[0], ast.Name) and isinstance(s.value, ast.Subscript) and U(s.value.value) == "phase_field.data":
+            dm = s
+    if dm is not None:
+        where = dm
+        idx = fv.expand(dm.value.slice, dm, stop=("droplet", "phase_field"), allow_mutated=True, depth=8)
+        if isinstance(idx, ast.Call) and (fv.callee(idx) or U(idx.func)).endswith("binary_dilation") and idx.args:
+            inner = idx.args[0]
+            okreg = U(inner).replace(" ", "") in ("droplet._get_phase_field(phase_field.grid,dtype=bool)", "droplet._get_phase_field(phase_field.grid,bool)")
+            it = kwarg(idx, "iterations")
+            okreg = okreg and it is not None and U(it).replace(" ", "") in ("1+int(2*droplet.interface_width)", "int(2*droplet.interface_width)+1")
+        # and the automatic levels are taken from exactly these values
+        lv = [s for s in fv.statements() if isinstance(s, ast.Assign) and U(s.targets[0]) in ("vmin", "vmax") and U(dm.targets[0]) in U(s.value)]
+        okreg = okreg and len(lv) >= 2
+    ctx.decide(okreg, "LEVELS", site + ":region", (fi, where), "fit region = boolean image of the candidate dilated by 1 + int(2·width) cells; image values taken there",
+               "the fit region is not the dilated boolean image of the candidate (1 + int(2·width) iterations) applied to phase_field.data")
     # vrng = vmax - vmin
     okr = any(isinstance(s, ast.Assign) and U(s.targets[0]) == "vrng" and U(s.value) == "vmax - vmin" for s in fv.statements())
     ctx.decide(okr, "LEVELS", site + ":range", fi, "vrng = vmax − vmin", "the intensity range is not vmax − vmin")
@@ -113,10 +128,21 @@ def check_objective(ctx: Ctx):
     for s in fv.statements():
         if isinstance(s, ast.Assign) and isinstance(s.targets[0], ast.Subscript) and isinstance(s.targets[0].value, ast.Name) and s.targets[0].value.id in stars:
             k0 = s.targets[0].slice
-            if isinstance(k0, ast.Constant) and k0.value in changing:
-                bad.append((s, f"option {k0.value!r}"))
-            elif not (isinstance(k0, ast.Constant) and k0.value in neutral):
+            keys = None
+            if isinstance(k0, ast.Constant):
+                keys = {k0.value}
+            else:
+                lp = stmt_index(fv).enclosing(s, (ast.For,))
+                if lp is not None and U(lp[0].target) == U(k0) and isinstance(lp[0].iter, (ast.List, ast.Tuple, ast.Set)) and all(isinstance(e, ast.Constant) for e in lp[0].iter.elts):
+                    keys = {e.value for e in lp[0].iter.elts}
+            if keys is None:
                 unknown.append((s, U(k0)))
+            else:
+                for k in keys:
+                    if k in changing:
+                        bad.append((s, f"option {k!r}"))
+                    elif k not in neutral:
+                        unknown.append((s, k))
     if bad:
         ctx.violate("OBJECTIVE", site, (fi, bad[0][0]), f"refine_droplet itself sets the solver's {bad[0][1]}: least_squares then minimises a robust loss ρ(r²) instead of Σ r², "
                     "so the refined droplet's squared deviation from the image can exceed the candidate's")
